@@ -41,6 +41,7 @@ enum {
 	FM_LEGACYSHAPE = 16384, // SSE/FO4 file that still contains NiTriShape geometry (built as Skyrim LE, then re-versioned)
 	FM_EXPORTINFO = 32768,  // 300-character export info in the header
 	FM_TEXPATH = 65536,     // a texture path that needs cleaning in texture slot 0
+	FM_SKIN2 = 2097152,     // with FM_SHAPE2: "Other" is skinned to ONE bone ("Bone0"), so that the file holds skin blocks with different bone counts
 	FM_DATALESS = 1048576,  // OB/FO3/SK: a NiTriShape "NoData" without geometry data is the first shape of the file
 	FM_BONETYPE = 524288,   // with FM_SKIN: bone "Bone1" is a BSValueNode (value 42) instead of a NiNode
 	FM_STRIPS = 262144,     // OB/FO3/SK: "Shape" is a NiTriStrips (one strip 0-1-2-3) instead of a NiTriShape
@@ -148,6 +149,23 @@ static inline FmModel fm_build(NifFile& nif, int ver, int feat) {
 		std::vector<Triangle> t2 = {Triangle(0, 1, 2)};
 		std::vector<Vector2> u2 = {Vector2(0, 0), Vector2(1, 0), Vector2(0, 1)};
 		m.shape2 = nif.CreateShapeFromData("Other", &v2, &t2, &u2, nullptr);
+	}
+	if ((feat & FM_SKIN2) && m.shape2) {
+		nif.CreateSkinning(m.shape2);
+		NiNode* b0 = nif.FindBlockByName<NiNode>("Bone0");
+		std::vector<int> bones = {(int) nif.GetBlockID(b0)};
+		nif.SetShapeBoneIDList(m.shape2, bones);
+		std::unordered_map<uint16_t, float> w;
+		for (int i = 0; i < 3; i++)
+			w[(uint16_t) i] = 1.0f;
+		nif.SetShapeBoneWeights("Other", 0, w);
+		if (dynamic_cast<BSTriShape*>(m.shape2))
+			for (int i = 0; i < 3; i++) {
+				std::vector<uint8_t> ids = {0};
+				std::vector<float> ws = {1.0f};
+				nif.SetShapeVertWeights("Other", (uint16_t) i, ids, ws);
+			}
+		nif.UpdateSkinPartitions(m.shape2);
 	}
 	NiHeader& hdr = nif.GetHeader();
 	if ((feat & FM_COLL) && ver != FM_FO4 && ver != FM_FO76) {
